@@ -242,6 +242,16 @@ def _contains_top(v, depth=0) -> bool:
     return False
 
 
+class AbstractKey:
+    """Key of a dictionary entry stored under a key the analysis cannot name (it contains TOP)."""
+
+    def __init__(self, idx):
+        self.idx = idx
+
+    def __repr__(self):
+        return f'<key {self.idx!r}>'
+
+
 def _is_abstract(v) -> bool:
     if HOST_TYPES and isinstance(v, HOST_TYPES):
         return False
@@ -659,7 +669,13 @@ class Interp:
                     obj[idx] = v
                 except (IndexError, KeyError, TypeError):
                     raise PathRaise('IndexError', t)
-            # otherwise: a store into an abstract object; nothing to track
+            elif isinstance(obj, dict) and _contains_top(idx):
+                obj[AbstractKey(idx)] = v       # an entry under a key the analysis cannot name
+            elif obj is not TOP and _is_abstract(obj) and not isinstance(obj, (Obj, Ext)):
+                # an abstract value that does not model stores: dropping the store would leave later reads of
+                # it wrong without anyone noticing
+                raise Unsupported(t, f'item store into {type(obj).__name__} {obj!r}')
+            # otherwise: a store into TOP / an opaque object; nothing to track
         elif isinstance(t, ast.Attribute):
             obj = self.ev(t.value, env)
             r = self.hooks.store_attr(self, obj, t.attr, v, t, env)
@@ -900,6 +916,9 @@ class Interp:
                    and type(a) is type(b))
             return res if isinstance(op, ast.Is) else not res
         if isinstance(op, (ast.In, ast.NotIn)):
+            if isinstance(b, dict) and any(isinstance(k, AbstractKey) for k in b) \
+                    and not (not _contains_top(a) and _hashable_in(a, b)):
+                return TOP
             if b is TOP or _is_abstract(b):
                 c = getattr(b, 'pqv_contains', None)
                 if c is None:
@@ -1055,6 +1074,8 @@ class Interp:
             except (IndexError, KeyError, TypeError, ValueError) as e:
                 raise PathRaise(type(e).__name__, node)
         if isinstance(obj, dict):
+            if any(isinstance(k, AbstractKey) for k in obj) and not (not _contains_top(idx) and _hashable_in(idx, obj)):
+                return TOP                      # may or may not be one of the entries stored under unknown keys
             if idx is TOP or _contains_top(idx) or (_deep_abstract(idx) and not _hashable_in(idx, obj)):
                 vals = list(obj.values())
                 if not vals:
